@@ -359,7 +359,7 @@ var InitialValues = Properties{
 	PWidows:             Int(2),
 
 	// Generated Content 3 (WD): https://www.w3.org/TR/css-content-3/
-	PBookmarkLabel:   ContentProperties{{Type: "content", Content: String("text")}},
+	PBookmarkLabel:   ContentProperties{{Type: "content()", Content: String("text")}},
 	PBookmarkLevel:   TaggedInt{Tag: None},
 	PBookmarkState:   String("open"),
 	PContent:         SContent{String: "normal"},
